@@ -1335,3 +1335,80 @@ func (nf *NilFlow) ReturnKind(rt *ssa.Return) RetKind {
 	}
 	return ClassifyReturn(rt)
 }
+
+// ---------------------------------------------------------------------------
+// HeldLocks: forward must-analysis of which locks are held before each
+// instruction. lockOf returns (key, +1) for an acquire, (key, -1) for a
+// release, ("", 0) otherwise; deferred releases are ignored (the lock stays
+// held until the function returns).
+type HeldLocks struct {
+	f      *ssa.Function
+	lockOf func(ssa.Instruction) (string, int)
+	in     map[*ssa.BasicBlock]StrSet
+}
+
+func NewHeldLocks(f *ssa.Function, lockOf func(ssa.Instruction) (string, int)) *HeldLocks {
+	h := &HeldLocks{f: f, lockOf: lockOf, in: map[*ssa.BasicBlock]StrSet{}}
+	if len(f.Blocks) == 0 {
+		return h
+	}
+	h.in[f.Blocks[0]] = StrSet{}
+	work := []*ssa.BasicBlock{f.Blocks[0]}
+	for len(work) > 0 {
+		b := work[len(work)-1]
+		work = work[:len(work)-1]
+		cur := h.in[b].Clone()
+		for _, in := range b.Instrs {
+			h.step(cur, in)
+		}
+		for _, s := range b.Succs {
+			old, ok := h.in[s]
+			var nw StrSet
+			if !ok {
+				nw = cur.Clone()
+			} else {
+				nw = intersect(old, cur)
+				if equalSets(nw, old) {
+					continue
+				}
+			}
+			h.in[s] = nw
+			work = append(work, s)
+		}
+	}
+	return h
+}
+
+func (h *HeldLocks) step(cur StrSet, in ssa.Instruction) {
+	if _, isDefer := in.(*ssa.Defer); isDefer {
+		return
+	}
+	if _, isGo := in.(*ssa.Go); isGo {
+		return
+	}
+	k, d := h.lockOf(in)
+	switch {
+	case d > 0:
+		cur[k] = true
+	case d < 0:
+		delete(cur, k)
+	}
+}
+
+// At returns the locks held on every path just before instr (nil when instr
+// is unreachable).
+func (h *HeldLocks) At(instr ssa.Instruction) StrSet {
+	b := instr.Block()
+	in, ok := h.in[b]
+	if !ok {
+		return nil
+	}
+	cur := in.Clone()
+	for _, x := range b.Instrs {
+		if x == instr {
+			return cur
+		}
+		h.step(cur, x)
+	}
+	return cur
+}
